@@ -1,6 +1,8 @@
 package kfake
 
 import (
+	"path/filepath"
+	"time"
 	"errors"
 	"os"
 )
@@ -101,7 +103,8 @@ type verifC33FS struct {
 	failOpen, failWrite, failSync, failRename bool
 	partial                                   int
 
-	renameChecked bool
+	renameChecked  bool
+	noContentCheck bool // Rename checks durability only (the content is not the JSON document of writeJSONFile)
 }
 
 func (m *verifC33FS) OpenFile(name string, flag int, perm os.FileMode) (file, error) {
@@ -138,7 +141,9 @@ func (m *verifC33FS) Rename(oldpath, newpath string) error {
 	// the discipline: what becomes visible under the final name is complete and durable
 	m.renameChecked = true
 	verifAssert(f.synced == len(f.data), "the temporary file is fully synced before it is renamed over the snapshot")
-	verifAssert(verifC33BytesEq(f.data, verifC33DocBytes), "the temporary file holds the complete new content before it is renamed over the snapshot")
+	if !m.noContentCheck {
+		verifAssert(verifC33BytesEq(f.data, verifC33DocBytes), "the temporary file holds the complete new content before it is renamed over the snapshot")
+	}
 	delete(m.files, oldpath)
 	m.files[newpath] = f
 	return nil
@@ -162,7 +167,25 @@ func (m *verifC33FS) ReadFile(name string) ([]byte, error) {
 	}
 	return append([]byte(nil), f.data...), nil
 }
-func (m *verifC33FS) Stat(name string) (os.FileInfo, error) { return nil, os.ErrNotExist }
+func (m *verifC33FS) Stat(name string) (os.FileInfo, error) {
+	f, ok := m.files[name]
+	if !ok {
+		return nil, verifC33ErrIO // (os.ErrNotExist is nil in the executor: package os is not initialised)
+	}
+	return verifC33Info{name: name, size: int64(len(f.data))}, nil
+}
+
+type verifC33Info struct {
+	name string
+	size int64
+}
+
+func (i verifC33Info) Name() string       { return i.name }
+func (i verifC33Info) Size() int64        { return i.size }
+func (i verifC33Info) Mode() os.FileMode  { return 0o644 }
+func (i verifC33Info) ModTime() time.Time { return time.Time{} }
+func (i verifC33Info) IsDir() bool        { return false }
+func (i verifC33Info) Sys() any           { return nil }
 
 func verifC33BytesEq(a, b []byte) bool {
 	if len(a) != len(b) {
@@ -386,4 +409,124 @@ func VerifC33_snapshotDiscipline() {
 		verifAssert(h.closed, "every opened handle is closed")
 	}
 	verifReached("c33-snapshot-discipline")
+}
+
+// ---- groups.log compaction: the same write-temp / sync / rename discipline ----
+
+var verifC33Replay glReplay
+
+//verif:replace replayGroupsLog
+func verifC33ReplayGroupsLog(entries []entryData) glReplay { return verifC33Replay }
+
+// compactGroupsLog rewrites groups.log (every acknowledged offset commit lives there) as
+// groups.log.tmp and renames it into place. With SyncWrites the rename must only ever expose
+// a temporary file that is completely written AND synced — otherwise a stop right after the
+// rename leaves an empty or torn groups.log and every acknowledged commit is gone. Under every
+// injected failure (open, write with any partial prefix, sync, rename) the old groups.log
+// stays in place, the temporary file is removed or left beside it, and groups.log itself is
+// never opened for writing by the compaction. The JSON replay of the old entries is replaced
+// by a canned result (1..2 entries of symbolic bytes).
+func VerifC33_compactGroupsLogDiscipline() {
+	const final = "dir/groups.log"
+	old := &verifC33File{path: final, data: []byte{0, 0, 0, 0}, synced: 4}
+	m := &verifC33FS{files: map[string]*verifC33File{final: old}, noContentCheck: true}
+	switch verifChoose(5) {
+	case 0:
+	case 1:
+		m.failWrite = true
+		m.partial = verifChoose(4)
+	case 2:
+		m.failSync = true
+	case 3:
+		m.failRename = true
+	case 4:
+		m.files[final+".tmp"] = &verifC33File{path: final + ".tmp", data: []byte("stale-partial")}
+	}
+	c := &Cluster{}
+	c.cfg.logger = new(nopLogger)
+	c.cfg.dataDir = "dir"
+	c.cfg.syncWrites = true
+	c.fs = m
+	verifC33Replay = glReplay{metas: map[string][]byte{"g": verifNondetBytes("meta", 2)}, commits: map[glCommitKey][]byte{}, statics: map[glStaticKey][]byte{}}
+	if verifChoose(2) == 1 {
+		verifC33Replay.commits[glCommitKey{}] = verifNondetBytes("commit", 3)
+	}
+	want := 0
+	for _, d := range verifC33Replay.metas {
+		want += entryHeaderSize + len(d)
+	}
+	for _, d := range verifC33Replay.commits {
+		want += entryHeaderSize + len(d)
+	}
+
+	c.compactGroupsLog()
+
+	renames := 0
+	for _, op := range m.log {
+		switch op.op {
+		case "open", "write", "sync", "truncate", "remove", "removeall":
+			verifAssert(op.path != final, "compaction never opens, writes or removes groups.log itself")
+		case "rename":
+			renames++
+			verifAssert(op.path == final+".tmp" && op.to == final, "only the temporary file is renamed, onto groups.log")
+		}
+	}
+	cur := m.files[final]
+	failed := m.failWrite || m.failSync || m.failRename
+	if failed {
+		verifAssert(cur == old, "after a failed step the previous groups.log is untouched")
+		if !m.failRename {
+			verifAssert(renames == 0, "no rename after a failed step")
+		}
+	} else {
+		verifAssert(renames == 1 && m.renameChecked, "a successful compaction renames the temporary file into place once")
+		verifAssert(cur != nil && cur != old && len(cur.data) == want && cur.synced == len(cur.data), "after a successful compaction groups.log is the complete, synced compacted content")
+	}
+	for _, h := range m.open {
+		verifAssert(h.closed, "every opened handle is closed")
+	}
+	verifReached("c33-compact-groups-log")
+}
+
+// ---- when is a partition snapshot trusted at restart ----
+
+// loadPartition skips the segment replay when snapshotMatchesSegments says the snapshot still
+// describes the segment files. With SyncWrites every acknowledged produce is in a segment
+// file, but the snapshot is only rewritten at a clean Close: after "clean Close, restart,
+// more acknowledged produces, crash" the active segment is LONGER than the snapshot says, and
+// trusting the snapshot would hide the acknowledged records. So the snapshot is trusted
+// exactly when the segment list matches and every segment file has exactly the recorded size
+// (shorter = torn, longer = appended since). One segment, recorded and on-disk size symbolic in [0,64], file present or
+// missing, segment list equal / different base / different length.
+func VerifC33_snapshotTrust() {
+	n := 1 // (the group's segmentFileName stub gives every segment the same name: one segment)
+	m := &verifC33FS{files: map[string]*verifC33File{}}
+	var snap persistPartSnapshot
+	var segFiles []int64
+	bases := []int64{0, 40}
+	shape := verifChoose(3) // 0 same list, 1 one base differs, 2 one more file on disk
+	want := shape == 0
+	for i := 0; i < n; i++ {
+		rec := verifNondetInt64("snapshot.size")
+		disk := verifNondetInt64("disk.size")
+		verifAssume(verifAnd(verifAnd(rec >= 0, rec <= 64), verifAnd(disk >= 0, disk <= 64)))
+		snap.Segments = append(snap.Segments, persistSegmentInfo{BaseOffset: bases[i], Size: rec})
+		b := bases[i]
+		if shape == 1 && i == n-1 {
+			b += 7
+		}
+		segFiles = append(segFiles, b)
+		if verifChoose(4) != 0 { // the file exists
+			m.files[filepath.Join("p", segmentFileName(bases[i]))] = &verifC33File{data: make([]byte, verifConcretize(int(disk)))}
+			want = want && disk == rec
+		} else {
+			want = false
+		}
+	}
+	if shape == 2 {
+		segFiles = append(segFiles, 99)
+	}
+	got := snapshotMatchesSegments(snap, segFiles, m, "p")
+	verifAssert(got == want, "a partition snapshot is trusted exactly when the segment list matches and every segment file has exactly the recorded size (a segment that grew since the snapshot forces a replay)")
+	verifReached("c33-snapshot-trust")
 }
